@@ -713,10 +713,15 @@ class Drillhole(Points):
 
                 for child in self.children:
                     if (
-                        isinstance(child, NumericData)
-                        and getattr(child.association, "name", None) == "VERTEX"
+                        not isinstance(child, Data)
+                        or getattr(child.association, "name", None) != "VERTEX"
+                        or not isinstance(child.values, np.ndarray)
                     ):
-                        child.values = child.format_values(child.values)[sort_ind]
+                        continue
+                    values = child.values
+                    if isinstance(child, NumericData):
+                        values = child.format_values(values)
+                    child.values = values[sort_ind]
 
                 if self.vertices is not None:
                     self.vertices = self.vertices[sort_ind, :]
